@@ -53,7 +53,7 @@ class C10(Check):
         "after construction (also for a pattern-matching query whose domain and keyword-argument variable are generators); (2) the first k results equal the first k of a full run of a fresh identical query; "
         "(3) the k-run's log equals the full run's log cut at its k-th yield; (4) single-variable queries pull at "
         "most index(k-th satisfying element)+2 domain elements; (4b) a selected variable that occurs in no condition is "
-        "pulled at most up to the furthest element the first k results mention, +2 (while no value of it repeats among them); (5) a single-variable query over an unbounded "
+        "pulled at most up to the furthest element the first k results mention, +2 (while no value of it repeats among them); (4c) for_all over a generator pulls the universal variable exactly up to the value that decides the answer; (5) a single-variable query over an unbounded "
         "(cyclic) generator domain delivers its first result within one cycle of pulls. Non-trivial: 0 < k < #results and the domains have elements beyond what k results "
         "need. Distinct = distinct IR."
     )
@@ -103,6 +103,34 @@ class C10(Check):
         got = {id(r) for r in query.evaluate()}
         want = {id(p) for p in parts if any(p.sub is w for lst in admissible for w in lst)}
         return at_construction, got == want
+
+    @staticmethod
+    def forall_consumption(world):
+        """an(entity(x, for_all(u, u.b >= x.a))) with u over a one-shot generator: the universal domain is consumed
+        exactly up to the value at which no candidate for x is left. Returns (pulled, needed, results are right)."""
+        from krrood.entity_query_language.entity import entity, for_all, let
+        from krrood.entity_query_language.quantify_entity import an
+
+        from ..models.eql_world import Item
+
+        xs = [Item(a=o["a"]) for o in world["objs"]]
+        us = [Item(b=o["b"]) for o in reversed(world["objs"])]
+        pulled = [0]
+
+        def gen():
+            for u in us:
+                pulled[0] += 1
+                yield u
+
+        x, u = let(Item, xs), let(Item, gen())
+        got = {id(r) for r in an(entity(x, for_all(u, u.b >= x.a))).evaluate()}
+        candidates, needed = list(xs), 0
+        for i, uu in enumerate(us):
+            needed = i + 1
+            candidates = [c for c in candidates if uu.b >= c.a]
+            if not candidates:
+                break
+        return pulled[0], needed, got == {id(c) for c in candidates}
 
     def cfg(self, tier):
         c = gen.Cfg(allow_quantifiers=False, allow_subquery=False, allow_noise=False, min_dom=1, allow_empty_domain=False)
@@ -182,6 +210,14 @@ class C10(Check):
             return bad("evaluated_at_construction", f"building entity_matching(T, generator)(attr=variable over a generator) pulled {pulled}")
         if not sane:
             return bad("not_a_prefix", "the pattern-matching query over generator domains returned wrong elements")
+        try:
+            pulled, needed, right = self.forall_consumption(ir["world"])
+        except Exception as exc:
+            return crash(exc, "for_all over a generator", classes=classes)
+        if not right:
+            return Outcome(rejected=True)  # a wrong for_all answer is C01's subject
+        if pulled > needed:
+            return bad("pulled_too_much", f"for_all decided after {needed} values of the universal variable but pulled {pulled}")
         if part != full[:k]:
             return bad("not_a_prefix", f"first {k} results {part} vs full run {full[:k]}")
         cut = fmarks[k - 1] if k > 0 else 0
